@@ -13,7 +13,7 @@ else:
     _p = _props[pid]
     prop = f"{pid} - {_p.get('title', '')}\n\n{_p.get('statement', _p.get('description', ''))}\n"
 earlier = ""
-if wave in ("3", "4"):
+if wave in ("3", "4", "5"):
     # one-line descriptions of the changes earlier authors already produced for this property (their own words; nothing of /verif's checks)
     lines = []
     for d in sorted(glob.glob(f"/verif/seeded/{pid}-*/")):
@@ -66,7 +66,17 @@ to a sub-component, `<` for `<=` at the option's boundary value, the wrong one o
 Mutant b should be a SEQUENCE slip: a bug that needs at least THREE public API calls in a particular order to manifest
 (configure -> run -> reconfigure -> run; register -> deregister -> register -> use; write -> resize -> read; train -> eval ->
 train; clear in the middle of a run ...), where every shorter prefix and every pair of those calls alone still behaves correctly.
-""" + earlier if wave == "4" else "") + f"""
+""" + earlier if wave == "4" else "") + ("""Mutant a should be a BOUNDARY / DEGENERATE-VALUE slip: correct for every ordinary value and wrong only at an edge that the property's
+'Quantified over' domain explicitly or implicitly includes - a size or count of exactly 1 (or exactly the maximum), a zero (delay 0,
+duration 0, refractory period 0, rate 0, empty train, zero vector), a value exactly on a threshold / limit / tolerance, an index
+that just wraps, a negative index, the first or the last step of a run, a time exactly on the grid or exactly half-way between
+two grid points (`<` for `<=`, `ceil` for `floor`, `max(x, 1)` dropped, an off-by-one in a range or a slice).
+Mutant b should be a SHAPE / DTYPE / LAYOUT generality slip: correct for the flat float32 shapes that simple tests use and wrong
+for a legal but less common tensor - a multi-dimensional neuron / observation shape such as (2, 3), a trailing or singleton
+dimension, batch size > 1 together with a non-square shape, a non-contiguous or expanded (stride-0) input, float64 / bool / int64
+data, time-first versus time-last layout (a reshape that should be a permute, `dim=-1` for `dim=1`, `view` on a non-contiguous
+tensor, a hard-coded number of dimensions, a reduction over the wrong axis that coincides for square or 1-D shapes).
+""" + earlier if wave == "5" else "") + f"""
 For EACH mutant (a, b):
  1. Make the change in the worktree (start each from a clean tree: `git -C {wt} checkout -- .`).
  2. Run the existing test suite and make sure it still passes:
